@@ -543,7 +543,7 @@ fn silence_leg(ctx: &Ctx, rep: &mut Report) {
 pub fn run(ctx: &Ctx) -> Outcome {
     let mut rep = Report::new();
     let q = ctx.quick();
-    history_workload(ctx, &mut rep, ctx.n(120_000, 3_000_000) as usize, if q { 20 } else { 50 });
+    history_workload(ctx, &mut rep, ctx.n(400_000, 6_000_000) as usize, if q { 20 } else { 50 });
     let nt = ctx.threads.max(4);
     for round in 0..(if q { 2 } else { 6 }) {
         thread_workload(ctx.seed.wrapping_add(round), nt, ctx.n(6_000, 60_000) as usize, false, &mut rep);
